@@ -14,11 +14,12 @@
 (* structure and compared with Level 1 (Req!Accessible of the REQUEST).    *)
 (***************************************************************************)
 EXTENDS TLC, Sequences, Naturals, FiniteSets, SequencesExt, Json, IOUtils
-CONSTANT DumpCases
+CONSTANTS DumpCases, Deep
 R == INSTANCE Req
 
 Modes == {"fn", "mod", "trait"}
-VisFor(mode) == IF mode = "fn" THEN {"", "pub", "pub(crate)", "pub(super)", "pub(in crate::cases)", "pub(in crate::cases::p)"} ELSE IF mode = "mod" THEN {"", "pub", "pub(crate)", "pub(super)"} ELSE {"", "pub", "pub(crate)"}
+VisFor(mode) == IF mode = "fn" THEN {"", "pub", "pub(crate)", "pub(super)", "pub(in crate::cases)", "pub(in crate::cases::p)"} ELSE IF mode = "mod" THEN {"", "pub", "pub(crate)", "pub(super)"} \cup (IF Deep THEN {"pub(self)", "pub(in crate::cases)"} ELSE {})
+                ELSE {"", "pub", "pub(crate)"} \cup (IF Deep THEN {"pub(super)", "pub(in crate::cases)"} ELSE {})
 \* the item's own visibility (fn, mod); for trait inputs: the visibility keyword written in the attribute before the
 \* delegation-target trait's name - neither may influence the generated trait's visibility
 ItemVis == {"", "pub", "pub(crate)"}
@@ -32,7 +33,7 @@ Inputs0 == { i \in [mode : Modes, vis : UNION { VisFor(m) : m \in Modes }, itemv
              \* inner: the entraited trait's body starts with an inner doc comment (`//! ..`): syn hands such a trait over with its
              \* attributes merged, the macro re-assembles the item - its visibility must survive that
              (i.inner => i.mode = "trait") /\
-             i.vis \in VisFor(i.mode) /\ (i.via = "inmod" => i.mode = "mod") /\ (i.via = "deleg" => i.mode = "trait") /\ (i.exp # "no" => i.mode \in {"fn", "mod"} /\ i.vis \in {"", "pub(crate)"}) }
+             i.vis \in VisFor(i.mode) /\ (i.via = "inmod" => i.mode = "mod") /\ (i.via = "deleg" => i.mode = "trait") /\ (i.exp # "no" => i.mode \in {"fn", "mod"} /\ (Deep \/ i.vis \in {"", "pub(crate)"})) }
 
 P == <<"cases", "p">>
 D == P \o <<"d">>
@@ -45,7 +46,7 @@ Emitted(i) ==
   CASE i.mode = "fn"    -> { [name |-> "T", def |-> D, vis |-> i.vis] }
     [] i.mode = "mod"   -> { [name |-> "m::T", def |-> D \o <<"m">>,
                               \* relative visibilities are shifted one level (since a "fix:" commit)
-                              vis |-> CASE i.vis = "" -> "pub(super)" [] i.vis = "pub(super)" -> "pub(in super::super)" [] OTHER -> i.vis],
+                              vis |-> CASE i.vis = "" -> "pub(super)" [] i.vis = "pub(self)" -> "pub(super)" [] i.vis = "pub(super)" -> "pub(in super::super)" [] OTHER -> i.vis],
                              [name |-> "T", def |-> D, vis |-> i.vis] }          \* `vis use m::T;`
     [] i.mode = "trait" -> { [name |-> "T", def |-> D, vis |-> i.vis],           \* TrImpl: trait_copy.vis = the trait's visibility
                              \* the third trait of `delegate_by = DelegateTr` (`trait DelegateTr<T> { type Target: TrImpl<T>; }`)
